@@ -33,9 +33,11 @@ Definition env_apply (e : env) (c : option bytes) : option bytes :=
   match e with ENone => c | EDel => None | EPut b => Some b end.
 
 (* one Backend.Load: what the wrapped backend serves as the whole file this time (None = error) *)
-(* b_late: the stream ends with an error that surfaces only after the consumer has returned nil
-   (short read detected by the backend afterwards): Backend.Load returns an error although the
-   consumer saw b_ans *)
+(* b_late: the stream breaks although part of the data (b_ans) was delivered, and Backend.Load
+   returns an error: either the error surfaces only after the consumer has returned nil (short read
+   detected by the backend afterwards), or the reader itself fails mid-stream (n>0 bytes, then a
+   read error) and the consumer -- Cache.save's io.Copy, LoadRaw's buffer copy -- passes that error
+   on.  Both give the same model behaviour: nothing of this download may stay in the cache. *)
 Record bcall := mkCall { b_pre : env; b_ans : option bytes; b_post : env; b_late : bool }.
 
 Inductive lres := LOk (d : bytes) | LErr.
